@@ -472,7 +472,12 @@ func gen(r *lib.RNG) caseT {
 					add(Stmt{S: s, K: "begin"}, Stmt{S: s, K: "read", T: (t + 1) % nTables}, Stmt{S: s, K: "trunc", T: t}, Stmt{S: s, K: "commit"})
 				}
 			case 5:
-				// a READ ONLY transaction, then a write of the same session: the mode must be gone
+				// a READ ONLY transaction, then a write of the same session: the mode must be gone (also with autocommit off, where
+				// no statement end commits and clears the transaction object on the way)
+				off := r.Chance(1, 3)
+				if off {
+					add(Stmt{S: s, K: "setac", A: 0})
+				}
 				add(Stmt{S: s, K: "beginro"})
 				for j, n := 0, r.Range(1, 4); j < n; j++ {
 					add(g.rw(s))
@@ -483,8 +488,14 @@ func gen(r *lib.RNG) caseT {
 				add(g.end(s))
 				if r.Chance(1, 2) {
 					add(g.write(s))
+					if off {
+						add(g.end(s))
+					}
 				} else {
 					add(Stmt{S: s, K: "begin", A: int64(r.Intn(3))}, g.write(s), g.end(s))
+				}
+				if off {
+					add(Stmt{S: s, K: "setac", A: 1})
 				}
 			case 6:
 				// DDL inside an explicit transaction: commits the pending work; the final ROLLBACK must not undo it
@@ -1012,6 +1023,10 @@ func main() {
 				{S: 1, K: "ins", T: 0, KVs: []KV{{2, 20}}}, {S: 1, K: "beginro"}, {S: 1, K: "rollback"}, {S: 1, K: "begin"},
 				{S: 1, K: "ins", T: 0, KVs: []KV{{3, 30}}}, {S: 1, K: "commit"}, {S: 1, K: "beginro"}, {S: 1, K: "begin", A: 2},
 				{S: 1, K: "delkey", T: 0, A: 1}, {S: 1, K: "commit"}, {S: 2, K: "read", T: 0}}},
+			// READ ONLY with autocommit off: after ROLLBACK / COMMIT the next implicit transaction is READ WRITE
+			{Init: [][]KV{{{1, 10}}, {}, {}}, Serial: true, H: []Stmt{
+				{S: 1, K: "setac", A: 0}, {S: 1, K: "beginro"}, {S: 1, K: "read", T: 0}, {S: 1, K: "rollback"}, {S: 1, K: "ins", T: 0, KVs: []KV{{2, 20}}},
+				{S: 1, K: "commit"}, {S: 1, K: "beginro"}, {S: 1, K: "commit"}, {S: 1, K: "delkey", T: 0, A: 1}, {S: 1, K: "setac", A: 1}, {S: 2, K: "read", T: 0}}},
 			// READ ONLY overlapping: the rejected DML registered its table, the commit republishes the snapshot
 			{Init: [][]KV{{{1, 10}}, {{1, 1}}, {}}, H: []Stmt{
 				{S: 1, K: "beginro"}, {S: 1, K: "delall", T: 0}, {S: 2, K: "ins", T: 1, KVs: []KV{{9, 9}}}, {S: 2, K: "ins", T: 0, KVs: []KV{{9, 9}}},
